@@ -53,7 +53,7 @@ def run(ctx):
     ctx.rule = ("TLC enumerates (ShellArgv_Gen mode chars) every string over the 10-character alphabet of length "
                 "1..3 (quick: length 1..2 plus one seeded 1/25 shard of length 3) x 10 placements; distinct = "
                 "initial states; non-trivial = the string contains a character other than 'a'")
-    n_exec = 4000 if ctx.thorough else 120
+    n_exec = 3000 if ctx.thorough else 120
     exec_set = set(ctx.rng.sample(range(len(cases)), min(n_exec, len(cases))))
     obs = sc.observe_all(cases, exec_set)
     t2 = time.time()
